@@ -5,6 +5,9 @@ CONSTANTS
   MaxBatches = 2
   NullMode = "all"
   AnyOrder = FALSE
+  Sample = FALSE
+  Replicas = 1
+  Seed = 1
 INIT Init
 NEXT Next
 INVARIANTS Inv Emit
